@@ -418,6 +418,10 @@ Proof.
   intros show_f64 env ptg rest [st buf]. unfold xls_step, xls_expected.
   destruct ptg as [|p]; [intros; exact I|]. follow_ptg.
   all: try leaf.
+  (* PtgRefN / PtgAreaN: refused without a base cell, else two cell references *)
+  all: try (intros Hlen Hi; cbn [fst snd];
+            match goal with |- context [xe_base ?e] => destruct (xe_base e) as [base|]; [|exact I] end;
+            repeat (reads; cbv zeta); finish; fail).
   (* PtgName: the two branches of the index test *)
   all: intros Hlen Hi; cbn [fst snd]; reads;
        match goal with |- safe (if ?c then _ else _) _ => destruct c end; reads; finish.
